@@ -780,6 +780,104 @@ func ruleCOD1(c *Ctx) []Ob {
 	}
 	check(dec, wrappers, "time wrapper")
 	check(enc, unwrappers, "time unwrapper")
+	// the transformers are applied unconditionally: Decode cannot return success without
+	// having unwrapped, and what Encode marshals is the wrapper's result
+	{
+		key := c.fname(dec) + "/unwraps on every success path"
+		ei := errResultIndex(dec.Signature)
+		callBlocks := map[*ssa.BasicBlock]bool{}
+		allCalls(dec, func(call ssa.CallInstruction) {
+			if g := staticCallee(call); g != nil && unwrappers[c.declared(g)] {
+				callBlocks[call.Block()] = true
+			}
+		})
+		bad := ""
+		if len(callBlocks) == 0 {
+			bad = "never"
+		} else if ei >= 0 && len(dec.Blocks) > 0 {
+			// path exploration avoiding the call; along a path, error values found non-nil by a
+			// branch are remembered, so `if err == nil { unwrap }; return err` is understood
+			type state struct {
+				b      *ssa.BasicBlock
+				nonNil string
+			}
+			seen := map[state]bool{}
+			var walk func(b *ssa.BasicBlock, known map[ssa.Value]bool)
+			walk = func(b *ssa.BasicBlock, known map[ssa.Value]bool) {
+				if callBlocks[b] {
+					return
+				}
+				sig := ""
+				for v := range known {
+					sig += v.Name() + ","
+				}
+				if seen[state{b, sig}] {
+					return
+				}
+				seen[state{b, sig}] = true
+				last := b.Instrs[len(b.Instrs)-1]
+				if ret, ok := last.(*ssa.Return); ok {
+					if rv, ok := returnedValue(ret, ei); ok {
+						isErr := !isNilConst(rv) && c.provablyNonNil(dec, rv, b)
+						for _, og := range origins(rv) {
+							if known[og] {
+								isErr = true
+							}
+						}
+						if !isErr {
+							bad = relPath(c, ret.Pos())
+						}
+					}
+					return
+				}
+				if iff, ok := last.(*ssa.If); ok {
+					if x, tnil, okn := nilTest(iff.Cond); okn && isErrorType(x.Type()) {
+						for i, s := range b.Succs {
+							k2 := map[ssa.Value]bool{}
+							for v := range known {
+								k2[v] = true
+							}
+							if (i == 0) != tnil { // the branch on which x is non-nil
+								k2[x] = true
+							}
+							walk(s, k2)
+						}
+						return
+					}
+				}
+				for _, s := range b.Succs {
+					walk(s, known)
+				}
+			}
+			walk(dec.Blocks[0], map[ssa.Value]bool{})
+		}
+		if bad == "never" {
+			o.add(VIOLATED, key, relPath(c, dec.Pos()), "Decode never applies the time unwrapper")
+		} else if bad != "" {
+			o.add(VIOLATED, key, bad, "Decode can return without an error on a path that skips the time unwrapper (a fast path / shortcut): documents on that path are handed out with *LocalizedTime wrappers in place of time.Time")
+		} else {
+			o.add(OK, key, relPath(c, dec.Pos()), "every return that is not an error passes through the unwrapper")
+		}
+		key = c.fname(enc) + "/marshals the wrapped value"
+		okEnc := false
+		allCalls(enc, func(call ssa.CallInstruction) {
+			if calleeFullName(call) != "github.com/vmihailenco/msgpack/v5.Marshal" {
+				return
+			}
+			okEnc = true
+			for _, og := range origins(call.Common().Args[0]) {
+				wc, isCall := og.(*ssa.Call)
+				if !isCall || staticCallee(wc) == nil || !wrappers[c.declared(staticCallee(wc))] {
+					okEnc = false
+				}
+			}
+		})
+		if okEnc {
+			o.add(OK, key, relPath(c, enc.Pos()), "msgpack.Marshal receives the result of the time wrapper")
+		} else {
+			o.add(VIOLATED, key, relPath(c, enc.Pos()), "what Encode marshals is not (only) the result of the time wrapper: times are stored with msgpack's native timestamp, which drops the zone offset")
+		}
+	}
 	// recursion on container elements is self-recursion
 	for _, set := range []map[*ssa.Function]bool{wrappers, unwrappers} {
 		for f := range set {
